@@ -45,7 +45,7 @@ EXPLANATION = ("Theorem: the STV/IRV/SequentialRCV/Alaska count loop never runs 
                "monotone status, ValueError only with tiebreak=None and a tie across the seat boundary (reference "
                "count), no other exception, 10 s alarm for non-termination.")
 
-N_QUICK, N_THOROUGH = 2400, 28800
+N_QUICK, N_THOROUGH = 2400, 86400
 
 ALL_RULES = ["STV", "IRV", "SequentialRCV", "Plurality", "SNTV", "Borda", "TopTwo", "Alaska", "DominatingSets",
              "CondoBorda", "RandomDictator", "BoostedRandomDictator", "PluralityVeto", "Rating", "Limited",
